@@ -66,6 +66,9 @@ func fmtVal(v Val, top bool) string {
 		case "divzero":
 			return "runtime error: integer divide by zero"
 		case "index":
+			if v.N < 0 {
+				return "runtime error: index out of range [" + strconv.Itoa(v.N) + "]"
+			}
 			return "runtime error: index out of range [" + strconv.Itoa(v.N) + "] with length " + strconv.Itoa(v.E[0].N)
 		case "nilmap":
 			return "assignment to entry in nil map"
